@@ -7,7 +7,6 @@ From HV Require Import Forms Xexp XexpProofs Rounding.
 Import ListNotations.
 Open Scope string_scope.
 
-Fixpoint qsum (l:list Q) : Q := match l with [] => 0 | x :: r => x + qsum r end.
 
 Lemma qsum_perm l l' : Permutation l l' -> qsum l == qsum l'.
 Proof.
@@ -31,15 +30,7 @@ Definition s1_body (pre post x:string) : expr := ERead RV [NLit pre; NExp (EVar 
 Definition s1 (pre post x cnt:string) : expr :=
   ECall FSum [EComp (s1_body pre post x) x (ERange (ERead RI [NLit cnt])) None].
 
-Lemma slookup_sset_same {A} k (a:A) l : slookup k (sset k a l) = Some a.
-Proof.
-  induction l as [|[k' a'] r IH]; cbn.
-  - rewrite String.eqb_refl. reflexivity.
-  - destruct (String.eqb k k') eqn:E; cbn; rewrite ?String.eqb_refl, ?E; auto.
-Qed.
 
-Lemma bind_val {A B} (a:A) (k:A -> res B) : (x <- RVal a ;; k x) = k a.
-Proof. reflexivity. Qed.
 
 Section S1.
 Context (c:ctx).
@@ -75,15 +66,6 @@ Proof.
     rewrite <- app_assoc. reflexivity.
 Qed.
 
-Lemma sum_fold : forall (l:list Q) (a:Q),
-  exists q, fold_left (fun acc x => a0 <- acc ;; arith OAdd a0 x) (map PNum l) (RVal (PNum a)) = RVal (PNum q) /\ q == a + qsum l.
-Proof.
-  induction l as [|x l IH]; intros a; cbn [map fold_left qsum].
-  - exists a. split; [reflexivity|ring].
-  - cbn [bind]. change (arith OAdd (PNum a) (PNum x)) with (RVal (PNum (Qred (a + x)))).
-    destruct (IH (Qred (a + x))) as (q & E & Hq). exists q. split; [exact E|].
-    rewrite Hq, Qred_correct. ring.
-Qed.
 
 Theorem s1_eval m r pre post x cnt (N:nat) (f:nat -> Q) :
   slookup (qualify c cnt) (x_inps c) = Some (PInt (Z.of_nat N)) ->
